@@ -2,10 +2,10 @@ package main
 
 import (
 	"fmt"
-	"os"
 	"go/constant"
 	"go/types"
 	"math/big"
+	"os"
 	"strings"
 
 	"golang.org/x/tools/go/ssa"
@@ -16,15 +16,15 @@ import (
 var tUntyped = types.Typ[types.UntypedInt]
 
 type SpecEnv struct {
-	e     *Exec
-	pkg   *types.Package
-	vars  map[string]Val
-	st    *State
-	old   *State
-	depth int
-	cells *State // state in which local variables held in memory are read (never switched by old())
-	topLevel bool // names are those of the function under verification (not a callee's contract)
-	rangeKey string     // ghost visited-set of the map iteration of the loop being specified
+	e        *Exec
+	pkg      *types.Package
+	vars     map[string]Val
+	st       *State
+	old      *State
+	depth    int
+	cells    *State // state in which local variables held in memory are read (never switched by old())
+	topLevel bool   // names are those of the function under verification (not a callee's contract)
+	rangeKey string // ghost visited-set of the map iteration of the loop being specified
 	rangeMap types.Type
 }
 
@@ -847,6 +847,10 @@ func (env *SpecEnv) evalCall(x *SExpr) (Val, error) {
 			if err != nil {
 				return Val{}, err
 			}
+			if isUntyped(a) && isUntyped(b) {
+				a, _ = env.coerce(a, tInt)
+				b, _ = env.coerce(b, tInt)
+			}
 			if isUntyped(a) {
 				a, _ = env.coerce(a, b.T)
 			}
@@ -1306,7 +1310,7 @@ func (env *SpecEnv) typeClause(x *SExpr) (types.Type, bool) {
 func (e *Exec) keysOfModClause(callee *ssa.Function, m Clause, argT ...types.Type) []string {
 	e.argTypes = argT
 	// static approximation used for loop havoc: derive keys from the field name / type
- x := m.E
+	x := m.E
 	if x.Op == "call" && x.Args[0].Op == "id" && x.Args[0].Tok == "ghost" && len(x.Args) == 2 {
 		return []string{"X:" + x.Args[1].String()}
 	}
@@ -1600,4 +1604,137 @@ func instantiateForalls(t, idx string) (string, bool) {
 		return t, false
 	}
 	return t, changed
+}
+
+// replaceSym replaces the symbol old (at token boundaries) by new.
+func replaceSym(t, old, new string) string {
+	var sb strings.Builder
+	for i := 0; i < len(t); {
+		j := strings.Index(t[i:], old)
+		if j < 0 {
+			sb.WriteString(t[i:])
+			break
+		}
+		j += i
+		end := j + len(old)
+		isSymCh := func(c byte) bool {
+			return c >= 'a' && c <= 'z' || c >= 'A' && c <= 'Z' || c >= '0' && c <= '9' || c == '_' || c == '!' || c == '.' || c == '$'
+		}
+		if (j > 0 && isSymCh(t[j-1])) || (end < len(t) && isSymCh(t[end])) {
+			sb.WriteString(t[i:end])
+			i = end
+			continue
+		}
+		sb.WriteString(t[i:j])
+		sb.WriteString(new)
+		i = end
+	}
+	return sb.String()
+}
+
+// reindexTwins: for every universal of the shape
+//
+//	(forall ((q BV64)) (! BODY :pattern ((select A (bvadd OFF q))) ...))
+//
+// in an ASSUMED formula, add the equivalent universal over the absolute index r = OFF + q,
+//
+//	(forall ((r BV64)) (! BODY[q := r - OFF] :pattern ((select A r)) ...)),
+//
+// whose trigger matches every read of A. Solvers flatten bit-vector sums in ground terms, so the
+// relative trigger (bvadd OFF q) is missed for reads at OFF + i + 1 and the like. The twin is
+// equivalent to the original (q -> OFF + q is a bijection on 64-bit vectors).
+func reindexTwins(c string) string {
+	pos := 0
+	for guard := 0; guard < 16; guard++ {
+		k := strings.Index(c[pos:], "(forall ((q_")
+		if k < 0 {
+			break
+		}
+		i := pos + k
+		j := i + len("(forall (")
+		depth, b := 0, j
+		for ; b < len(c); b++ {
+			if c[b] == '(' {
+				depth++
+			} else if c[b] == ')' {
+				depth--
+				if depth < 0 {
+					break
+				}
+			}
+		}
+		binders := splitArgs(c[j:b])
+		depth = 0
+		endq := i
+		for ; endq < len(c); endq++ {
+			if c[endq] == '(' {
+				depth++
+			} else if c[endq] == ')' {
+				depth--
+				if depth == 0 {
+					break
+				}
+			}
+		}
+		pos = endq + 1
+		if len(binders) != 1 || !strings.HasSuffix(binders[0], "(_ BitVec 64))") || endq >= len(c) {
+			continue
+		}
+		q := strings.Fields(binders[0][1:])[0]
+		inner := strings.TrimSpace(c[b+1 : endq])
+		if !strings.HasPrefix(inner, "(! ") {
+			continue
+		}
+		ps := splitArgs(inner[3 : len(inner)-1])
+		if len(ps) < 3 {
+			continue
+		}
+		body := ps[0]
+		off := ""
+		var arrs []string
+		ok := true
+		for x := 1; x+1 < len(ps); x += 2 {
+			if ps[x] != ":pattern" {
+				ok = false
+				break
+			}
+			p := strings.TrimSpace(ps[x+1])
+			p = strings.TrimSpace(p[1 : len(p)-1])
+			if !strings.HasPrefix(p, "(select ") {
+				ok = false
+				break
+			}
+			sa := splitArgs(p[len("(select ") : len(p)-1])
+			if len(sa) != 2 || !strings.HasPrefix(sa[1], "(bvadd ") {
+				ok = false
+				break
+			}
+			ba := splitArgs(sa[1][len("(bvadd ") : len(sa[1])-1])
+			if len(ba) != 2 || ba[1] != q || strings.Contains(ba[0], q) || (off != "" && off != ba[0]) {
+				ok = false
+				break
+			}
+			off = ba[0]
+			arrs = append(arrs, sa[0])
+		}
+		if !ok || off == "" {
+			continue
+		}
+		r := "r" + q
+		nb := strings.ReplaceAll(body, "(bvadd "+off+" "+q+")", r)
+		nb = replaceSym(nb, q, "(bvsub "+r+" "+off+")")
+		var np []string
+		seen := map[string]bool{}
+		for _, a := range arrs {
+			if !seen[a] {
+				seen[a] = true
+				np = append(np, ":pattern ((select "+a+" "+r+"))")
+			}
+		}
+		twin := "(forall ((" + r + " (_ BitVec 64))) (! " + nb + " " + strings.Join(np, " ") + "))"
+		repl := "(and " + c[i:endq+1] + " " + twin + ")"
+		c = c[:i] + repl + c[endq+1:]
+		pos = i + len(repl)
+	}
+	return c
 }
